@@ -19,7 +19,7 @@ ENCODED = ["twisted.internet.base:ReactorBase.callLater",
            "twisted.internet.base:DelayedCall.delay", "twisted.internet.base:DelayedCall.activate_delay",
            "twisted.internet.base:DelayedCall.getTime", "twisted.internet.base:DelayedCall.active",
            "twisted.internet.base:DelayedCall.__le__", "twisted.internet.base:DelayedCall.__lt__"]
-BOUNDS = {"quick": {"n": 3, "ni": 2, "tot": 3, "tot_in": 3, "m": 1, "nd": 1},
+BOUNDS = {"quick": {"n": 3, "ni": 2, "tot": 3, "tot_in": 2, "m": 1, "nd": 1},
           "thorough": {"n": 4, "ni": 3, "tot": 5, "tot_in": 4, "m": 2, "nd": 1}}
 B = {}
 PADS = 51           # concrete cancelled far-future heap entries used to reach the compaction branch
@@ -377,9 +377,10 @@ def step_op(now: float, k: int, m: int, cm: int, drift: int,
     tgt = _pick(tgt, 0, max(0, k + m - 1))
     W = _build(now, k, m, cm, drift, (t0, t1, t2, t3, t4), (u0, u1), dx, dl, dy, dm, 0)
     d0 = W.R._cancellations - _ncancelled(W.R)
-    W.modify(act, tgt, r)       # act 0: nothing, the step is timeout() alone
-    W.check()
-    W.check_timeout()
+    if act == 0:
+        W.check_timeout()       # the step is timeout() alone (it also flushes the staging list)
+    else:
+        W.modify(act, tgt, r)
     W.check()
     if W.R._cancellations - _ncancelled(W.R) != d0:
         return False            # no compaction here: the lazy-deletion count keeps its offset
@@ -410,8 +411,6 @@ def step_run(now: float, k: int, m: int, cm: int, drift: int,
     W.inner = (who, act, tgt, r)
     W.iterate()
     W.check()
-    W.check_timeout()
-    W.check()
     if W.R._cancellations - _ncancelled(W.R) != d0:
         return False            # no compaction here (<= 8 cancellations): the count keeps its offset
     cover()
@@ -424,7 +423,7 @@ def step_compact(now: float, k: int, m: int, cm: int, drift: int,
     """
     pre: _state_pre(B['tot_in'], k, m, cm, drift, (t0, t1, t2, t3, t4), (u0, u1), dx, dl, dy, dm)
     pre: -BIG <= now <= BIG and 0 <= r <= BIG
-    pre: (act == 0 or act == 1 or act == 5) and 1 <= k + m and drift <= 2
+    pre: (act == 0 or act == 1 or act == 5) and 1 <= k + m and drift <= 1
     pre: 0 <= who < k + m and (0 <= tgt < k + m) and (act != 0 or who + tgt == 0)
     post: _
     """
@@ -436,7 +435,7 @@ def step_compact(now: float, k: int, m: int, cm: int, drift: int,
     act = _pick(act, 0, 5)
     who = _pick(who, 0, k + m - 1)
     tgt = _pick(tgt, 0, k + m - 1)
-    drift = _pick(drift, 0, 2)
+    drift = _pick(drift, 0, 1)
     W = _build(now, k, m, cm, drift, (t0, t1, t2, t3, t4), (u0, u1), dx, dl, dy, dm, PADS)
     W.inner = (who, act, tgt, r)
     W.iterate()
@@ -451,16 +450,23 @@ def step_compact(now: float, k: int, m: int, cm: int, drift: int,
         if R._cancellations > 50 and R._cancellations > len(R._pendingTimedCalls) >> 1:
             return False
     W.check()
-    W.check_timeout()
-    W.check()
     cover()
     return bool(W.ok)
 
 
+def _hist_shards(tier):
+    n = BOUNDS[tier]["n"]
+    out = [("act == 0",), ("act == 1", "who == -1"), ("act == 4", "who == -1")]
+    out += [("act == %d" % a, "who == -1", "tgt == %d" % t) for a in (2, 3) for t in range(n)]
+    if tier == "quick":
+        out += [("act == %d" % a, "who >= 0") for a in range(1, 5)]
+    else:
+        out += [("act == %d" % a, "who == %d" % w) for a in range(1, 5) for w in range(BOUNDS[tier]["ni"])]
+    return out
+
+
 HARNESSES = [
-    H(history, shards=lambda tier: [("act == 0",)] + [("act == %d" % a, w) for a in range(1, 5)
-                                                     for w in ("who == -1", "who >= 0")],
-      timeout={"quick": 90, "thorough": 1200}),
+    H(history, shards=_hist_shards, timeout={"quick": 90, "thorough": 1200}),
     H(step_op, shards=lambda tier: [("act == %d" % a,) for a in range(5)],
       timeout={"quick": 90, "thorough": 1200}),
     H(step_run, shards=lambda tier: [("act == %d" % a,) for a in range(6)],
